@@ -77,9 +77,40 @@ func callRecv(c ssa.CallInstruction) ssa.Value {
 
 // withAnon: f and all nested closures.
 func withAnon(f *ssa.Function) []*ssa.Function {
+	return withAnonD(f, map[*ssa.Function]bool{})
+}
+
+func withAnonD(f *ssa.Function, seen map[*ssa.Function]bool) []*ssa.Function {
+	if seen[f] {
+		return nil
+	}
+	seen[f] = true
 	out := []*ssa.Function{f}
 	for _, a := range f.AnonFuncs {
-		out = append(out, withAnon(a)...)
+		out = append(out, withAnonD(a, seen)...)
+	}
+	// a closure turned into a named type with a method, handed over as a method value (`v.wrap`): the bound
+	// method of an unexported type of the same package stands where the function literal stood
+	for _, b := range f.Blocks {
+		for _, in := range b.Instrs {
+			mc, ok := in.(*ssa.MakeClosure)
+			if !ok {
+				continue
+			}
+			g, isF := mc.Fn.(*ssa.Function)
+			if !isF || g.Synthetic == "" || !strings.HasSuffix(g.Name(), "$bound") {
+				continue
+			}
+			for _, m := range funcValuesOf(mc) {
+				if m == nil || m.Pkg == nil || f.Pkg == nil || m.Pkg != f.Pkg || m.Signature.Recv() == nil || len(m.Blocks) == 0 {
+					continue
+				}
+				if nt, isN := types.Unalias(derefType(m.Signature.Recv().Type())).(*types.Named); !isN || nt.Obj().Exported() {
+					continue
+				}
+				out = append(out, withAnonD(m, seen)...)
+			}
+		}
 	}
 	return out
 }
@@ -830,6 +861,17 @@ var propagators = map[string][]int{ // callee -> propagated arg indices (nil = a
 	"strings.SplitN":              {0},
 	"strings.Cut":                 {0},
 	"strings.CutPrefix":           {0},
+	"strings.CutSuffix":           {0},
+	"strings.Fields":              {0},
+	"strings.TrimFunc":            {0},
+	"strings.Repeat":              {0},
+	"strconv.Itoa":                {0},
+	"strconv.FormatInt":           {0},
+	"strconv.FormatUint":          {0},
+	"strconv.Quote":               {0},
+	"encoding/hex.EncodeToString": {0},
+	"fmt.Appendf":                 nil,
+	"fmt.Append":                  nil,
 	"fmt.Sprintf":                 nil,
 	"fmt.Sprint":                  nil,
 	"path/filepath.Join":          nil,
@@ -1325,6 +1367,9 @@ func atomsOf(v ssa.Value) map[string]bool {
 			}
 		case *ssa.Field:
 			out["field:"+fieldName(x.X.Type(), x.Field)] = true
+			if pr, isP := x.X.(*ssa.Parameter); isP && pr.Parent() != nil && pr.Parent().Signature.Recv() != nil && len(pr.Parent().Params) > 0 && pr.Parent().Params[0] == pr {
+				out["param:"+fieldName(x.X.Type(), x.Field)] = true
+			}
 			if srcs := fieldSources(v); len(srcs) != 1 || srcs[0] != v {
 				for _, sv := range srcs {
 					walk(sv, depth+1)
@@ -1355,6 +1400,11 @@ func atomsOf(v ssa.Value) map[string]bool {
 			walk(x.X, depth+1)
 		case *ssa.FieldAddr:
 			out["field:"+fieldName(x.X.Type(), x.Field)] = true
+			// state a closure captured, moved into the fields of the handler object the method belongs to: a
+			// field of the method's own receiver answers to the captured variable's name as well
+			if pr, isP := x.X.(*ssa.Parameter); isP && pr.Parent() != nil && pr.Parent().Signature.Recv() != nil && len(pr.Parent().Params) > 0 && pr.Parent().Params[0] == pr {
+				out["param:"+fieldName(x.X.Type(), x.Field)] = true
+			}
 			walk(x.X, depth+1)
 		case *ssa.Call:
 			n := calleeName(x)
@@ -1764,7 +1814,22 @@ func staticCallees(p *Program, root *ssa.Function) map[string]bool {
 		}
 		for _, fn := range withAnon(f) {
 			for _, c := range callsIn(fn) {
+				// functions handed over as values (method expressions given to a generic helper, callbacks) are
+				// called by whoever receives them
+				for _, a := range c.Common().Args {
+					if _, isSig := a.Type().Underlying().(*types.Signature); !isSig {
+						continue
+					}
+					for _, g := range funcValuesOf(a) {
+						if g.Pkg != nil && strings.HasPrefix(g.Pkg.Pkg.Path(), modPath) {
+							visit(g)
+						}
+					}
+				}
 				if sc := c.Common().StaticCallee(); sc != nil {
+					if o := sc.Origin(); o != nil && sc.Pkg == nil && o.Pkg != nil && strings.HasPrefix(o.Pkg.Pkg.Path(), modPath) {
+						visit(sc) // an instance of a generic function of the module
+					}
 					if sc.Pkg != nil && strings.HasPrefix(sc.Pkg.Pkg.Path(), modPath) {
 						visit(sc)
 					}
@@ -1888,6 +1953,9 @@ func stringSet(p *Program, v ssa.Value) ([]string, bool) {
 			if n == 0 {
 				ok = false
 			}
+		case *ssa.Global:
+			// the address of a package-level array (sliced in place: tbl[:])
+			elems(&ssa.UnOp{Op: token.MUL, X: x})
 		case *ssa.UnOp:
 			if g, isG := x.X.(*ssa.Global); isG && x.Op == token.MUL {
 				// the table's initialiser in the package init function(s); any other store makes it unknown
@@ -1993,13 +2061,44 @@ func stringSet(p *Program, v ssa.Value) ([]string, bool) {
 			ok = false
 		}
 	}
-	walk(v)
+	switch v.Type().Underlying().(type) {
+	case *types.Slice, *types.Array:
+		elems(v) // the table as a whole (an argument of slices.Contains / ContainsFunc)
+	default:
+		walk(v)
+	}
 	var res []string
 	for s := range out {
 		res = append(res, s)
 	}
 	sort.Strings(res)
 	return res, ok && len(res) > 0
+}
+
+// tableMembershipTest: cond is slices.Contains(tbl, x) / slices.ContainsFunc(tbl, f) / slices.Index*(…) >= 0 over a
+// constant table of strings: the strings and, for the Func forms, the function value tested with.
+func tableMembershipTest(p *Program, cond ssa.Value) (names []string, fn ssa.Value, subject ssa.Value, ok bool) {
+	c, isCall := cond.(*ssa.Call)
+	if !isCall || len(c.Call.Args) != 2 {
+		return nil, nil, nil, false
+	}
+	n := calleeName(c)
+	if i := strings.Index(n, "["); i > 0 {
+		n = n[:i]
+	}
+	switch n {
+	case "slices.Contains":
+		subject = c.Call.Args[1]
+	case "slices.ContainsFunc":
+		fn = c.Call.Args[1]
+	default:
+		return nil, nil, nil, false
+	}
+	ss, okS := stringSet(p, c.Call.Args[0])
+	if !okS {
+		return nil, nil, nil, false
+	}
+	return ss, fn, subject, true
 }
 
 // rowFieldStrings: constants that field #fld of the struct elements of a table can hold (local literal, or a
